@@ -20,20 +20,50 @@ from . import clientmodel as cm
 
 TRUSTED = ["server reply format (DESIGN 4.4): item blocks in the documented shape, data length as announced",
            "A-split on a line of single-space separated tokens; A-int (int(dec(n)) == n)", "reader contracts (C03), _connect contract (C06)",
-           "C02 (store command format) and C15 (serde inverse) for the composed round trip: lemma C04.roundtrip is stated, not mechanised"]
+           "C02 (store command format) and C15 (serde inverse) are hypotheses of the machine-checked composition lemma C04.roundtrip (each proved under its own property)"]
 ASSUMPTIONS = ["a faithful server returns only requested keys (otherwise KeyError: the call fails and the connection is dropped)",
                "header tokens contain no CR (token classes of the protocol)"]
 NOT_COVERED = ["stats / cache_memlimit replies (other reply shape)", "multi-key fetch with repeated keys is decided by the cut lemma only through dict semantics of RemapV (last position wins)",
-               "the composition with C02/C15 into get(set(v)) == v is an argument over three machine-checked contracts, not a fourth proof"]
+               "the composition lemma get(set(v)) == v takes the three contracts' postconditions as hypotheses (proved under C02 / C04 / C15) and the server model as an assumption"]
 BUDGET = {"quick": 40, "thorough": 180}
 FILTER_BY_PROPERTY = True
 REPLAY_UNDECIDED = True
-DEPENDS = ["C03"]      # reader contracts used at every read
+DEPENDS = ["C03", "C15", "C02"]      # reader contracts used at every read; the two other hypotheses of the round-trip lemma (serde inverse,
+                                     # store command framing) are re-proved in the same run
 
 
 def build(E, tier):
     cm.verify_fetch_cmd(E, names=("get", "gets", "gat", "gats"))
     cm.verify_fetch_many(E, names=("get", "gets"))
+    roundtrip_lemma(E)
+
+
+def roundtrip_lemma(E):
+    """Lemma C04.roundtrip, machine-checked as an implication: the hypotheses are the POSTCONDITIONS of the contracts proved
+    elsewhere (C02 store command, C04 fetch result, C15 serde inverse) and the assumed server behaviour (DESIGN 4.4); the
+    conclusion is get(k) == v after set(k, v). Uninterpreted: the serde (ser_data, ser_flags, deserialize), the key encoding."""
+    import z3
+    from pyvc.state import State
+    from pyvc.values import Py
+    S, I = z3.StringSort(), z3.IntSort()
+    ser_data, ser_flags = z3.Function("ser_data", Py, Py, S), z3.Function("ser_flags", Py, Py, I)
+    deser = z3.Function("deserialize", Py, S, I, Py)
+    enc = z3.Function("wire_key", Py, S)
+    k, v, got = z3.Consts("rt_key rt_value rt_got", Py)
+    sent_key, sent_data, reply_key, reply_data = z3.Strings("sent_key sent_data reply_key reply_data")
+    sent_flags, sent_len, reply_flags = z3.Ints("sent_flags sent_len reply_flags")
+    kk, vv = z3.Consts("kk vv", Py)
+    st = State()
+    st.assume(# C02 (post of _store_cmd): the command carries the prefixed key, the serde's flags, the exact length and data block
+              sent_key == enc(k), sent_flags == ser_flags(k, v), sent_data == ser_data(k, v), sent_len == z3.Length(sent_data),
+              # faithful server (assumed, DESIGN 4.4): a fetch of a stored key replies that item, data of exactly the stored bytes
+              reply_key == sent_key, reply_flags == sent_flags, reply_data == sent_data,
+              # C04 (post of _fetch_cmd/_extract_value, proved above): the caller's key maps to deserialize(key, data block, flags)
+              z3.Implies(reply_key == enc(k), got == deser(k, reply_data, reply_flags)),
+              # C15 (serde inverse, proved there for the shipped serdes): deserialize(serialize(v)) == v
+              z3.ForAll([kk, vv], deser(kk, ser_data(kk, vv), ser_flags(kk, vv)) == vv))
+    E.oblige("C04/lemma/roundtrip-composition:get(k)==v-after-set(k,v)-from-the-C02-C04-C15-postconditions-and-the-server-model", st, got == v,
+             kind="lemma", func="pymemcache.client.base:Client._fetch_cmd")
     cm.verify_public_fetch_many(E)
 
 
